@@ -254,9 +254,14 @@ def run(R):
         v = r.ast.value
         if not (isinstance(v, ast.Call) and ast.unparse(v.func) == 'checker.check' and [ast.unparse(a) for a in v.args] == ['name', 'cert_name']):
             probs.append((f'`{norm(r.ast)}` is not checker.check(name, cert_name)', r.ast))
-    cds = [v for n_ in vn.cfg.nodes for (nm, v) in vn.cfg.defs_of(n_) if nm == 'cert_name']
-    if not cds or any(not (isinstance(v, ast.AST) and alias_text(vn, v) == 'sig_ptrs.signature_info.key_locator.name') for v in cds):
-        probs.append(('cert_name is not the key locator name', vn.f.node))
+    # the certificate name handed to the schema check: every binding that can reach the call (bindings to None excluded by the None-test
+    # that guards it) is the key locator name of the packet
+    for r in returns(vn):
+        v = r.ast.value
+        if isinstance(v, ast.Call) and ast.unparse(v.func) == 'checker.check' and len(v.args) == 2:
+            ss = vn.sources(r, v.args[1])
+            if not ss or any(not (s_.kind == 'expr' and alias_text(s_.ctx, s_.expr) == 'sig_ptrs.signature_info.key_locator.name') for s_ in ss):
+                probs.append(('cert_name is not the key locator name', vn.f.node))
     if vn.cfg.falloff.id in vn.cfg.reachable(follow_exc=False):
         probs.append(('a path falls off the end', vn.f.node))
     if probs:
@@ -327,7 +332,11 @@ def run(R):
     if tsub and isinstance(tsub[0].ast, ast.Call) and isinstance(tsub[0].ast.func, ast.Attribute) and len(tsub[0].ast.args) == 1 \
             and isinstance(tsub[0].ast.args[0], ast.Name):
         mv = tsub[0].ast.args[0].id
-        built = [n_ for n_ in sc.cfg.nodes if n_.ast is not None and 'checker.match(cert_name)' in ast.unparse(n_.ast) and (
+        # the anchor's name: first element of parse_data(trust_anchor)
+        nv = [nm for n_ in sc.cfg.nodes for (nm, v) in sc.cfg.defs_of(n_) if isinstance(v, tuple) and len(v) == 3 and v[0] == 'unpack' and v[2] == 0
+              and isinstance(v[1], ast.AST) and ast.unparse(v[1]) == 'parse_data(trust_anchor)']
+        nv = nv[0] if len(nv) == 1 else 'cert_name'
+        built = [n_ for n_ in sc.cfg.nodes if n_.ast is not None and f'checker.match({nv})' in ast.unparse(n_.ast) and (
             any(nm == mv for (nm, _) in sc.cfg.defs_of(n_)) or
             any(isinstance(x, ast.Call) and callee_attr(x) in ('append', 'extend') and ast.unparse(x.func.value) == mv for x in ast.walk(n_.ast)))]
         oksub = full_text(sc, tsub[0].ast.func.value) == 'checker.root_of_trust()' and bool(built)
@@ -338,7 +347,7 @@ def run(R):
         probs.append('an anchor that does not match every root of trust is not refused')
     if not tnon or sc.cfg.exit.id in reach_from_succ(sc.cfg, tnon[0], False, follow_exc=False):
         probs.append('an anchor matching no rule is not refused')
-    calls = [c for (n_, c) in calls_in_ctx(lv) if isinstance(c.func, ast.Name) and c.func.id == 'sanity_check']
+    calls = [c for (n_, c) in calls_in_ctx(lv) if isinstance(c.func, ast.Name) and c.func.id in ('sanity_check', sc.f.node.name)]
     cas = [n_ for (n_, c) in calls_in_ctx(lv) if ast.unparse(c.func).endswith('CascadeChecker')]
     if len(calls) != 1 or not cas or not lv.cfg.dominates(lv.node_of(calls[0]), cas[0]):
         probs.append('sanity_check() is not run before the validator is built')
